@@ -12,6 +12,6 @@ PROP = {
  'assumptions': ['the list size is set through a tag-only accessor (store.max_candidate_count) to 3..5 so that more candidates than slots exist',
                  'restarts are clean (queue drained); crash restarts are C08\'s subject'],
  'min_cases': {'quick': 400, 'thorough': 10000},
- 'min_stats': {'quick': {'top_lists_compared': 1500, 'snapshot_blocks_checked': 30, 'restarts': 50}},
+ 'min_stats': {'quick': {'scenarios_with_about_as_many_candidates_as_slots': 8, 'top_lists_compared': 1500, 'snapshot_blocks_checked': 30, 'restarts': 50}},
  'timeout_s': {'quick': 900, 'thorough': 10800},
 }
